@@ -5,13 +5,23 @@ Require Import Base.Py Base.ZList Model.Splice Model.Fam_mp4.
 Open Scope Z_scope.
 
 (* ------------------------------------------------------------------ slices *)
+Lemma take_is_ztake l : forall n, mp4_take n l = ztake n l.
+Proof.
+  induction l as [|x r IH]; intros n; cbn [mp4_take]; [unfold ztake; destruct (Z.to_nat n); reflexivity|].
+  destruct (n <=? 0) eqn:E.
+  - unfold ztake. replace (Z.to_nat n) with O by lia. reflexivity.
+  - rewrite IH. unfold ztake. replace (Z.to_nat n) with (S (Z.to_nat (n - 1))) by lia. reflexivity.
+Qed.
+Lemma drop_is_zdrop l : forall n, mp4_drop n l = zdrop n l.
+Proof.
+  induction l as [|x r IH]; intros n; cbn [mp4_drop]; [unfold zdrop; destruct (Z.to_nat n); reflexivity|].
+  destruct (n <=? 0) eqn:E.
+  - unfold zdrop. replace (Z.to_nat n) with O by lia. reflexivity.
+  - rewrite IH. unfold zdrop. replace (Z.to_nat n) with (S (Z.to_nat (n - 1))) by lia. reflexivity.
+Qed.
 Lemma rd_is_slice f p n : 0 <= p -> 0 <= n -> mp4_rd f p n = zslice p (p + n) f.
 Proof.
-  intros Hp Hn. unfold mp4_rd, zslice. destruct (zlen f <=? p) eqn:E.
-  - rewrite zdrop_all by lia. bset (p + n - p) n. unfold ztake. destruct (Z.to_nat n); reflexivity.
-  - bset (p + Z.min n (zlen f - p) - p) (Z.min n (zlen f - p)). bset (p + n - p) n.
-    destruct (Z.le_gt_cases n (zlen f - p)); [f_equal; lia|].
-    rewrite !ztake_all; [reflexivity| |]; rewrite zlen_zdrop by lia; lia.
+  intros Hp Hn. unfold mp4_rd, zslice. rewrite take_is_ztake, drop_is_zdrop. f_equal. lia.
 Qed.
 
 Lemma zlen_rd f p n : 0 <= p -> 0 <= n -> zlen (mp4_rd f p n) = Z.max 0 (Z.min n (zlen f - p)).
